@@ -1,6 +1,8 @@
 package gen
 
 import (
+	"math/big"
+
 	"verif/harness/ref"
 )
 
@@ -193,9 +195,15 @@ func (g *ExprGen) Arg(c ref.V, k ArgKind, depth int, first ref.V) *ref.Node {
 			// a key present in the element whose value is a number or string
 			if o, ok := el.(*ref.Obj); ok && len(o.Keys) > 0 && r.Chance(85) {
 				body = field(Pick(r, o.Keys))
+				if r.Chance(14) {
+					body = reenter(r, body)
+				}
 			} else {
 				body = g.Chain(el, 1)
 			}
+		} else if depth > 0 && r.Chance(12) {
+			// a call inside the expression reference (possibly of the same function)
+			body = g.Call(el, depth-1)
 		} else {
 			body = g.Chain(el, 1+r.Intn(2))
 			if r.Chance(25) && len(g.vars) > 0 {
@@ -220,6 +228,38 @@ func (g *ExprGen) Arg(c ref.V, k ArgKind, depth int, first ref.V) *ref.Node {
 		return g.Expr(c, depth-1)
 	}
 	return Lit(g.freshOf(k))
+}
+
+// reenter wraps a key expression f in an equivalent one that calls a sorting
+// or selecting builtin on a small array built from the element itself, so
+// that the builtin is re-entered while an outer call of the same family is
+// still collecting its keys.
+func reenter(r *R, f *ref.Node) *ref.Node {
+	two := &ref.Node{Kind: ref.NMultiList, Kids: []*ref.Node{cur(), cur()}}
+	one := &ref.Node{Kind: ref.NMultiList, Kids: []*ref.Node{cur()}}
+	ff := &ref.Node{Kind: ref.NMultiList, Kids: []*ref.Node{f, f}}
+	ex := func(n *ref.Node) *ref.Node { return &ref.Node{Kind: ref.NExpref, Kids: []*ref.Node{n}} }
+	call := func(name string, kids ...*ref.Node) *ref.Node {
+		return &ref.Node{Kind: ref.NFunc, Name: name, Kids: kids}
+	}
+	idx := func(n *ref.Node, i int64) *ref.Node {
+		return &ref.Node{Kind: ref.NIndex, Kids: []*ref.Node{n}, Idx: big.NewInt(i)}
+	}
+	switch r.Intn(7) {
+	case 0:
+		return sub(idx(call("sort_by", two, ex(f)), int64(r.Intn(2))), f)
+	case 1:
+		return sub(call("max_by", two, ex(f)), f)
+	case 2:
+		return sub(call("min_by", one, ex(f)), f)
+	case 3:
+		return idx(call("sort", ff), int64(r.Intn(2)))
+	case 4:
+		return call(Pick(r, []string{"min", "max"}), ff)
+	case 5:
+		return idx(call("map", ex(f), two), 1)
+	}
+	return sub(idx(call("reverse", call("sort_by", two, ex(f))), 0), f)
 }
 
 // Call generates a function call evaluated against c.
